@@ -387,21 +387,46 @@ func (e *Env) Cycle(reps []Replica) CycleObs {
 		}
 		e.curReps.ms = append(e.curReps.ms, fm)
 	}
-	func() {
+	// the cycle runs in its own goroutine so that a cycle that never returns (every scripted shard answers at
+	// once, so only the code under test can block) is an observation, not a hang of the check
+	var harness interface{}
+	var panicked, errText string
+	done := make(chan struct{})
+	go func() {
+		defer close(done)
 		defer func() {
 			if r := recover(); r != nil {
 				if he, ok := r.(interface{ Error() string }); ok && strings.HasPrefix(he.Error(), "HARNESS") {
-					panic(r)
+					harness = r
+					return
 				}
-				co.Panic = fmt.Sprint(r)
+				panicked = fmt.Sprint(r)
 			}
 		}()
 		if err := e.co.VerifRunOnce(); err != nil {
-			co.Err = err.Error()
+			errText = err.Error()
 		}
 	}()
+	select {
+	case <-done:
+		if harness != nil {
+			panic(harness)
+		}
+		co.Panic, co.Err = panicked, errText
+	case <-time.After(CycleGuard):
+		co.Panic = fmt.Sprintf("the cycle did not return within %v (it is blocked)", CycleGuard)
+		Blocked = true
+	}
 	return co
 }
+
+// CycleGuard is how long a single coordination cycle over scripted, immediately answering shards may take before
+// it is taken for blocked (it takes well under a millisecond).
+var CycleGuard = 60 * time.Second
+
+// Blocked is set once a cycle was given up: the process then has a goroutine stuck in the code under test and
+// every later result of it is suspect; runH1 stops at the first such finding.
+var Blocked bool
 
 // Run executes all cycles of a scenario.
 func Run(sc *Scenario) *Obs {
